@@ -90,6 +90,8 @@ class HistoryMonitor(Monitor):
                 k = "sampling"
             elif isinstance(h, StartOfRunEventHandler):
                 k = "start_of_run"
+            elif h.__class__.__name__.endswith("DumpingEventHandler"):
+                k = "dumping"
             elif isinstance(h, CellBoundaryEventHandler):
                 k = "cell_boundary"
             elif isinstance(h, RootLeafUnitActiveSwitcher):
@@ -150,6 +152,10 @@ class HistoryMonitor(Monitor):
     def on_activate(self, ctx, mapping, active_snapshot):
         for h, ids in mapping.items():
             self.activation[id(h)] = ids
+        # the occupancy has just been updated for this leg: check it before any handler consumes it
+        if ctx.commits >= 1:
+            self.check_occupancy(ctx)
+            self._occupancy_checked_at = ctx.commits
 
     def on_send_event_time(self, ctx, handler, in_state_snapshot, time, extra):
         self.in_snap[id(handler)] = in_state_snapshot
@@ -168,7 +174,8 @@ class HistoryMonitor(Monitor):
     def on_before_get(self, ctx):
         if ctx.commits >= 1:
             self.check_pending(ctx)
-            self.check_occupancy(ctx)
+            if getattr(self, "_occupancy_checked_at", None) != ctx.commits:
+                self.check_occupancy(ctx)
 
     def on_get(self, ctx, handler):
         pass
@@ -559,8 +566,28 @@ class HistoryMonitor(Monitor):
                              "stamp %r" % (name, t, uid, ts), ctx)
                 return
 
+    TRUE_BOUND_HANDLERS = ("TwoLeafUnitBoundingPotentialEventHandler",
+                           "TwoCompositeObjectSummedBoundingPotentialEventHandler",
+                           "RootUnitActiveTwoCompositeObjectSummedBoundingPotentialEventHandler")
+
+    def check_warnings(self, ctx):
+        """C04 (c): the code's own bounding_potential_warning must never fire for handlers whose bounding potential is
+        the 1/r bound that is claimed to be a true bound (estimator-based cell bounds are heuristic and excluded)."""
+        uses_true_bound = any("inverse_power_coulomb_bounding_potential" in (ctx.config.get(sec, "bounding_potential",
+                                                                                         fallback="") or "")
+                              for sec in ctx.config.sections())
+        self.stats["bounded_confirmations_possible"] += 1 if uses_true_bound else 0
+        for msg in ctx.warnings:
+            if "bounding event rate" in msg and "is not bigger than the real event rate" in msg:
+                name = msg.split("In the event handler ")[-1].split(" ")[0]
+                base = name.split("(")[-1].rstrip(")") if "(" in msg.split(" the bounding")[0] else name
+                full = msg.split("In the event handler ")[-1].split(" the bounding event rate")[0]
+                if any(h in full for h in self.TRUE_BOUND_HANDLERS) and uses_true_bound:
+                    self.verdict("C04", "warning-in-run", msg, ctx)
+
     def on_end(self, ctx, reason):
         self.reason = reason
+        self.check_warnings(ctx)
         if reason != "end_of_run":
             return
         if self.end_commit is None or self.end_commit[0] != ctx.commits:
